@@ -1,7 +1,7 @@
 CONSTANTS
   Dev = {}
   Alphabet <- AlphaTok
-  MaxLen = 3
+  MaxLen = 4
   DepthProbe = {0, 1, 2, 256}
 INIT Init
 NEXT Next
